@@ -147,7 +147,9 @@ class Mod:
             (n, r) = s.idimp
             o.append("  import %s { prefix sp%s;%s }" % (n, n, (" revision-date %s;" % r) if r else ""))
             for x in ("ids", "idt"):
-                o.append("  identity %s_%s { base sp%s:idb_%s; }" % (x, s.name, n, n))
+                # (named after the submodule's container, which keeps its name when an alternative revision renames the submodule:
+                # the compiled print of the base module lists the derived identities by name)
+                o.append("  identity %s_%s { base sp%s:idb_%s; }" % (x, s.cname[3:], n, n))
         for f in s.feats:
             o.append("  feature %s%s" % (f.name, (" { if-feature %s; }" % f.iff) if f.iff else ";"))
         if s.data:
